@@ -44,7 +44,14 @@ def run(ctx):
         ok, l, inv, tout = ctx.validate("NtpAcceptTrace", "NtpAcceptTrace_strict.cfg", tp)
         if not ok:
             ctx.drift.append("reaction differs from NtpAccept.tla: %s" % (recs[l - 1] if l else "?"))
-    ctx.cov.update(traces_validated_against_impl=nval, evaluations=len(recs),
+    # the NTS clause on the wire: real NTS client, NTS-KE and NTP servers, crafted
+    # responses per NTS deviation class (spec: NtpAccept.tla with Nts = TRUE)
+    import c05nts_part
+    ncases_nts, nrec_nts, react_nts = c05nts_part.run_nts(ctx)
+    ctx.log("NTS driver: %d cases, %d datagrams judged, reactions %s" % (ncases_nts, nrec_nts, react_nts))
+    if not ctx.violations:
+        nval += ncases_nts
+    ctx.cov.update(traces_validated_against_impl=nval, evaluations=len(recs) + nrec_nts,
                    distinct_nontrivial=len({str(x["d"]) + str(x["il"]) for x in recs}),
                    rule="TLC enumeration of NtpAccept.tla: every datagram at most two fields away from the genuine "
                         "response (source, length, LI, VN, mode, stratum, origin class, transmit-vs-receive), arriving "
@@ -52,7 +59,7 @@ def run(ctx):
                         "mutating the real server's genuine response and delivered to the real IPClient on loopback",
                    samples=recs[:3] + [x for x in recs if x["got"] == "ok"][:2],
                    exhaustive=not q)
-    ctx.assumptions += ["IP client; NTS clause (unique identifier, AEAD) decided at function level by C10 - the receive "
-                        "loop's use of ProcessResponse is modelled in NtpAccept.tla (cfg NtpAccept_nts) but not replayed",
+    ctx.assumptions += ["IP and SCION clients (same-AS empty path, no SPAO: see C13); the NTS clause is replayed on the "
+                        "wire for the IP client (real NTS-KE and NTP servers behind a proxy), not for the SCION client",
                         "a datagram from the server's address and another port counts as 'from the queried server' "
                         "(the code compares addresses; the statement names no port)"]
